@@ -117,6 +117,7 @@ class LogicSanitizer:
         self.phase = None
         self.cur = None
         self.nviol = 0
+        self.blind = False
         self.stats = dict(touches=0, operand_checks=0, ops=0, capture_rows=0, assign_rows=0, unattributed=0)
         order, deps = W.line_deps(circuit, strip_forks=strip_forks)
         self.exp_writer = {li: (d[1] if d[0] == 'alias' else (-1 if d[0] == 'zero' else li)) for li, d in deps.items()}
@@ -174,6 +175,8 @@ class LogicSanitizer:
         return [int(r) for r in np.atleast_1d(np.asarray(key))]
 
     def on_get(self, key):
+        if self.blind:
+            return
         if self.phase == 'prop':
             for r in self._rows(key):
                 self._touch(r, False)
@@ -191,6 +194,8 @@ class LogicSanitizer:
                     self.viol('ownership', f'capture read row {r}: last written by line {o} in epoch {self.wepoch[r]}, expected the producer of the captured line {sorted(acc)} in epoch {self.epoch}')
 
     def on_set(self, key):
+        if self.blind:
+            return
         if self.phase == 'prop':
             for r in self._rows(key):
                 self._touch(r, True)
@@ -205,8 +210,10 @@ class LogicSanitizer:
 
     def _touch(self, r, is_write):
         if self.cur is None:
-            # propagation no longer walks `ops[:, :6]` / `ops` (the repository was restructured): not attributable, inconclusive
+            # propagation no longer walks `ops[:, :6]` / `ops` (the repository was restructured): accesses cannot be attributed to
+            # operations any more, so the monitor knows no writers - it switches itself off for this simulator instead of guessing
             self.stats['unattributed'] += 1
+            self.blind = True
             return
         k, z, opnds, lv = self.cur
         self.stats['touches'] += 1
